@@ -106,7 +106,24 @@ def views_of(model):
   return cp, names
 
 
+def _touch_other_accessors(view, names):
+  for other in ("eam_density", "eam_density_fs"):
+    if other not in names:
+      try:
+        getattr(view, other)
+      except Exception:  # noqa
+        pass
+
+
 def check_view(view, cp, names, species, exclude):
+  # every public accessor may be read, in any order, before the ones the model uses (a Finnis-Sinclair view is also asked
+  # for its plain-EAM reading of [EAM-Density] and vice versa; what that returns is not compared)
+  for other in ("eam_density", "eam_density_fs"):
+    if other not in names:
+      try:
+        getattr(view, other)
+      except Exception:  # noqa
+        pass
   for n in names:
     if getattr(view, n) != spec(getattr(cp, n), species, exclude):
       return False
@@ -529,6 +546,7 @@ def _rp_one(model, idx, exclude):
   cp, names = views_of(model)
   species = mlabels(model, idx)
   view = make_view(cp, species, exclude)
+  _touch_other_accessors(view, names)
   for n in names:
     got, want = getattr(view, n), spec(getattr(cp, n), species, exclude)
     if got != want:
@@ -545,6 +563,7 @@ def _rp_two(model, idx1, ex1, idx2, ex2, second_first):
   v1 = make_view(cp, s1, ex1)
   v2 = make_view(cp, s2, ex2)
   for (v, s_, ex, who) in ((v1, s1, ex1, "first"), (v2, s2, ex2, "second")):
+    _touch_other_accessors(v, names)
     for n in names:
       got, want = getattr(v, n), spec(getattr(cp, n), s_, ex)
       if got != want:
